@@ -50,6 +50,11 @@ void PolarGrid::loadVectorFromFile(const std::string& filename, std::vector<doub
         vector.push_back(value);
     }
 
+    // The loop must have stopped at the end of the file, not at a token that is not a number.
+    if (!inputFile.eof()) {
+        throw std::runtime_error("Malformed value in grid file: " + filename);
+    }
+
     // Close the file
     inputFile.close();
 }
